@@ -21,7 +21,10 @@ CLAIMED = {
         "object reached so far (inductive relation chain(p, name, i, o), loop invariant), all parts consumed, the "
         "result conforms to the target class (textx_isinstance by contract). _find_referenced_obj: what is returned "
         "was found by _find_obj_fqn from the referencing object or from an object reached from it through parent "
-        "links (relation up). NOT proved: that the NEAREST such ancestor wins, completeness of the whole chain "
+        "links (relation up); the ORDER of the attempts, as two statement regions: the first attempt is made on the "
+        "referencing object, every iteration of the loop moves exactly one parent link outward, tries there, and "
+        "returns the first hit and nothing else. NOT proved: the composition of these into 'the nearest ancestor with "
+        "a chain wins' as one postcondition (it needs the attempts as a sequence), completeness of the whole chain "
         "(needs unique sibling names as a global invariant), termination of the parent walk, tuples as attribute "
         "values (A-WD: the engine iterates lists), FQN.__call__ itself (an assert and one call). The bounded battery "
         "decides the whole statement natively: 140 (600 thorough) random package trees with sibling-unique, globally "
